@@ -8,7 +8,8 @@ LEAN_MODULE = "Frost.Props.C16"
 THEOREMS = ["Frost.C16.coefficients_frame", "Frost.C16.randomNonzero_spec", "Frost.C16.split_tape",
             "Frost.C16.dealer_draws", "Frost.C16.part1_draws", "Frost.C16.repair1_draws", "Frost.C16.refresh_draws",
             "Frost.C16.defaultSign_draws", "Frost.C17.seed_is_one_draw", "Frost.C19.batchLoop_eq",
-            "Frost.C15.preprocess_draws"]
+            "Frost.C15.preprocess_draws", "Frost.C16.prefixDraw_ed25519", "Frost.C16.prefixDraw_ristretto255", "Frost.C16.prefixDraw_ed448",
+            "Frost.C16.prefixDraw_p256", "Frost.C16.prefixDraw_secp256k1", "Frost.C16.prefixDraw_secp256k1_tr", "Frost.C16.rejection_sampling_spec"]
 RULE = ("one case = one entry point that takes a random source (dealer, split, dkg part1, refresh dealer/dkg part1, repair part1, single-signer sign, randomizer, batch verify) run twice on equal tapes and once per draw on a tape differing in exactly that draw; "
         "non-trivial = the call succeeded and the per-draw comparison was made; distinct = hash of (entry point, suite, sizes, tape)")
 ASSUMPTIONS = ["draw sizes of Field::random per backend (curve25519-dalek 64 bytes, ed448-goldilocks 114, k256/p256 32 with rejection sampling, toy 8) are those measured in DESIGN.md Appendix B; a mismatch shows as an oracle failure, not a false pass",
@@ -147,5 +148,5 @@ def search(sess, disagreements):
 
 LEVEL_TEXT = ("Every model function that takes a random source takes and returns the tape and has no other source of values, so reproducibility holds by construction; Lean 4 theorems give the exact draw sequence per entry point and the frame property: k coefficients are k successive disjoint draws and value j is Field::random of draw j alone (coefficients_frame); keys and proof nonces come from non-zero rejection sampling (randomNonzero_spec); dealer = key then t-1 coefficients (dealer_draws, split_tape); DKG part1 = key, t-1 coefficients, proof nonce in this order (part1_draws); repair part1 = |H|-1 values (repair1_draws); dealer refresh = t-1 coefficients (refresh_draws); single-signer signing = the nonce (defaultSign_draws); randomizer = one draw of scalar length (C17.seed_is_one_draw); batch verification = one blinder per item (C19.batchLoop_eq); signing nonces = two 32-byte draws per pair (C15). "
               "Correspondence/oracle on all eight suites: each entry point twice on equal tapes (bit-identical), once per draw on a tape differing in exactly that draw (exactly the corresponding value changes), number of bytes drawn, pairwise distinctness; toy suites also vs. the model.")
-LEVEL_NOTE = ("coefficients_frame assumes PrefixDraw (Field::random consumes a prefix of the source and depends on it only), which is what each backend's Scalar::random does; backends are modelled, not verified. Trusted: as C01.")
+LEVEL_NOTE = ("coefficients_frame assumes PrefixDraw (Field::random consumes a prefix of the source and depends on it only); that hypothesis is PROVED for the Field::random model of each of the six suites (prefixDraw_*: wide reduction, and rejection sampling with every out-of-range block discarded, rejection_sampling_spec); the models are tied to the backends by the correspondence (number of bytes drawn, out-of-range and zero draws included); backends themselves are modelled, not verified. Trusted: as C01.")
 TECHNIQUE = "Lean 4 proof (draw sequence + frame property per entry point) + differential correspondence + one-draw-difference oracle"
